@@ -29,7 +29,7 @@ ASSUMPTIONS = [
     'no-mutation are demanded there',
     '+inf labels must be rejected with ValueError (documented)',
 ]
-REQUIRED_COUNTERS = ['reused_warper_compared', 'default_rank_checked', 'arrays_with_ties_and_nan',
+REQUIRED_COUNTERS = ['reused_warper_unwarp_compared', 'reused_warper_compared', 'default_rank_checked', 'arrays_with_ties_and_nan',
                      'unwarp_roundtrips', 'no_reversal_checked',
                      'input_snapshot_checked', 'posinf_rejections']
 MIN_DISTINCT = {'quick': 300, 'thorough': 3000}
@@ -305,13 +305,43 @@ def check_reuse(ctx, name, reused, factory, cls, y, index, history):
     return
   if feasible.sum() == 0 and name not in FINITE:
     return
+  fresh = factory()
   try:
     with np.errstate(all='ignore'):
       a = np.asarray(reused.warp(y.copy()), dtype=np.float64)
-      b = np.asarray(factory().warp(y.copy()), dtype=np.float64)
+      b = np.asarray(fresh.warp(y.copy()), dtype=np.float64)
   except Exception:  # pylint: disable=broad-except
     return  # exceptions are judged by check_one on the fresh object
   ctx.count('reused_warper_compared')
+  if name in UNWARP and a.shape == b.shape and np.array_equal(a, b, equal_nan=True):
+    # ... and its inverse must be the inverse of *this* fit, like the fresh object's
+    try:
+      with np.errstate(all='ignore'):
+        ub = np.asarray(fresh.unwarp(b.copy()), dtype=np.float64)
+    except Exception:  # pylint: disable=broad-except
+      ub = None
+    if ub is not None:
+      try:
+        with np.errstate(all='ignore'):
+          ua = np.asarray(reused.unwarp(a.copy()), dtype=np.float64)
+      except Exception as e:  # pylint: disable=broad-except
+        ua = None
+        ctx.violation(f'reused-warper-unwarp-raises:{name}:{type(e).__name__}',
+                      f'{name}: unwarp raises on a re-used warper object but not on a fresh one: {e}'[:300],
+                      {'subject': name, 'class': cls, 'labels': [repr(float(v)) for v in y.flatten()], 'index': index,
+                       'reuse_history': [[repr(float(v)) for v in h.flatten()] for h in history[-3:]]})
+      if ua is not None:
+        ctx.count('reused_warper_unwarp_compared')
+        ok = ua.shape == ub.shape and np.array_equal(np.isnan(ua), np.isnan(ub)) and np.allclose(
+            np.nan_to_num(ua, posinf=1e308, neginf=-1e308), np.nan_to_num(ub, posinf=1e308, neginf=-1e308),
+            rtol=1e-6, atol=1e-9)
+        if not ok:
+          ctx.violation(f'reused-warper-unwarp-differs-from-fresh:{name}',
+                        f'{name}: a warper object that had warped {len(history)} earlier arrays un-warps its own warped '
+                        'labels differently from a fresh object fitted on the same array (stale state of an earlier fit)',
+                        {'subject': name, 'class': cls, 'labels': [repr(float(v)) for v in y.flatten()], 'index': index,
+                         'reuse_history': [[repr(float(v)) for v in h.flatten()] for h in history[-3:]]},
+                        {'reused': [repr(float(v)) for v in ua.flatten()][:20], 'fresh': [repr(float(v)) for v in ub.flatten()][:20]})
   same = a.shape == b.shape and np.array_equal(np.isnan(a), np.isnan(b)) and np.allclose(
       np.nan_to_num(a, posinf=1e308, neginf=-1e308), np.nan_to_num(b, posinf=1e308, neginf=-1e308), rtol=1e-6, atol=1e-9)
   if not same:
